@@ -150,14 +150,16 @@ def check_proofs(pid, modules, log, thorough=False):
                     broken.append("%s uses forbidden construct %s" % (m, bad[0]))
             audit = os.path.join(WORK, "Audit_%s_%s.lean" % (pid, mod.replace(".", "_")))
             with open(audit, "w") as f:
-                f.write("import %s\nopen Rosmar\n" % mod)
+                with open(path) as src:
+                    spaces = re.findall(r"^namespace\s+(\S+)", src.read(), flags=re.M)
+                f.write("import %s\nopen %s\n" % (mod, " ".join(dict.fromkeys(["Rosmar"] + spaces))))
                 for n in names:
                     f.write("#print axioms %s\n" % n)
             p = sh(["lake", "env", "lean", audit], cwd=LEAN)
             out = p.stdout + p.stderr
             for n in names:
                 all_names.append(n)
-                m = re.search(r"'(?:Rosmar\.)?%s' (does not depend on any axioms|depends on axioms: \[([^\]]*)\])" % re.escape(n), out)
+                m = re.search(r"'(?:[\w]+\.)*%s' (does not depend on any axioms|depends on axioms: \[([^\]]*)\])" % re.escape(n), out)
                 if not m:
                     broken.append(n + " (not found by the audit)")
                     continue
